@@ -29,6 +29,7 @@ pub struct Ctl {
     pub short: Option<StdRng>,
     pub shorted: u64,
     pub after_fault_calls: u64,
+    pub site: Vec<String>,
 }
 
 pub struct Wrap {
@@ -54,6 +55,7 @@ impl Wrap {
             if !c.fired && fk == kind && c.counts[kind] == k {
                 c.fired = true;
                 c.fired_at = c.counts;
+                c.site = call_site();
                 return Err(io::Error::new(io::ErrorKind::Other, "vh: injected I/O fault"));
             }
         }
@@ -102,6 +104,52 @@ impl Seek for Wrap {
     }
 }
 
+/// The SDK functions on the stack when the fault is injected (innermost first): identifies the call whose error is at stake.
+fn call_site() -> Vec<String> {
+    let bt = std::backtrace::Backtrace::force_capture().to_string();
+    let mut out: Vec<String> = vec![];
+    for line in bt.lines() {
+        let t = line.trim();
+        // frame lines look like "12: c2pa::asset_handlers::jpeg_io::..."
+        if let Some((_, f)) = t.split_once(": ") {
+            if (f.starts_with("c2pa::") || f.starts_with("<c2pa::")) && !f.contains("verif_hooks") {
+                let mut f = f.to_string();
+                if let Some(i) = f.rfind("::h") { if f.len() - i == 19 { f.truncate(i); } }
+                if out.last() != Some(&f) { out.push(f); }
+                if out.len() == 12 { break; }
+            }
+        }
+    }
+    out
+}
+
+/// Manifest labels are fresh UUIDs per signing: rename each to a token derived from the manifest's title and role.
+fn rename_manifests(v: &mut Value) {
+    let mut map: Vec<(String, String)> = vec![];
+    let active = v["report"]["active_manifest"].as_str().unwrap_or("").to_string();
+    if let Some(ms) = v["report"]["manifests"].as_object() {
+        let mut named: Vec<(String, String)> = ms.iter().map(|(k, m)| (k.clone(), format!("{}{}", if *k == active { "active:" } else { "" }, m["title"].as_str().unwrap_or("?")))).collect();
+        named.sort_by(|a, b| a.1.cmp(&b.1));
+        for (i, (k, t)) in named.into_iter().enumerate() { map.push((k, format!("<manifest {i} {t}>"))); }
+    }
+    fn walk(v: &mut Value, map: &[(String, String)]) {
+        let sub = |s: &str| { let mut s = s.to_string(); for (k, t) in map { if s.contains(k.as_str()) { s = s.replace(k.as_str(), t); } } s };
+        match v {
+            Value::Object(m) => {
+                let keys: Vec<String> = m.keys().cloned().collect();
+                let mut items: Vec<(String, Value)> = vec![];
+                for k in keys { let mut x = m.remove(&k).unwrap(); walk(&mut x, map); items.push((sub(&k), x)); }
+                items.sort_by(|a, b| a.0.cmp(&b.0));
+                for (k, x) in items { m.insert(k, x); }
+            }
+            Value::Array(a) => a.iter_mut().for_each(|x| walk(x, map)),
+            Value::String(s) => *s = sub(s),
+            _ => {}
+        }
+    }
+    walk(v, &map);
+}
+
 fn normalise(v: &mut Value) {
     fn blank_uuids(s: &str) -> String {
         // blank anything shaped like a UUID (manifest labels, instance ids are fresh per signing)
@@ -142,6 +190,7 @@ fn normalise(v: &mut Value) {
 
 fn summary(r: &Reader) -> String {
     let mut v = report(r);
+    rename_manifests(&mut v);
     normalise(&mut v);
     json!({"report": v, "codes": codes(r)}).to_string()
 }
@@ -311,7 +360,7 @@ pub fn run(args: &[String]) {
                             let c = ctls[si].lock().unwrap();
                             let same = rk == "ok" && d == bs;
                             out.emit(&json!({"e": "run", "mode": if sticky { "sticky" } else { "fault" }, "format": name, "op": op, "stream": si, "kind": kind, "k": k, "of": n, "reached": c.fired,
-                                "after": c.after_fault_calls, "result": rk, "same": same, "stable": stable, "detail": if rk == "ok" { Value::Null } else { json!(d) },
+                                "after": c.after_fault_calls, "site": c.site, "result": rk, "same": same, "stable": stable, "detail": if rk == "ok" { Value::Null } else { json!(d) },
                                 "state": if rk == "ok" { state_of(&d) } else { Value::Null }}));
                         }
                     }
